@@ -496,8 +496,11 @@ RE_INFO_PV = re.compile(r"^info depth \d+ score (cp|mate) -?\d+( upperbound| low
 RE_INFO_DEPTH = re.compile(r"^info depth \d+$")
 
 
+UCI_LINES = None     # the id / option lines of an undisturbed `uci` answer (set from an idle run)
+
+
 def canon(line):
-    """canonical kind of one stdout line; None = dropped (part of the uci block)"""
+    """canonical kind of one stdout line; None = dropped (a line of the uci block)"""
     if line == "readyok":
         return "readyok"
     if line == "uciok":
@@ -511,13 +514,14 @@ def canon(line):
     if line.startswith("info"):
         return "info" if RE_INFO.match(line) else "other"
     if line.startswith("id name ") or line.startswith("id author ") or line.startswith("option name "):
-        return None
+        return None if (UCI_LINES is None or line in UCI_LINES) else "other"
     return "other"
 
 
-def run_script(exe, steps, exit_timeout=10.0):
+def run_script(exe, steps, exit_timeout=12.0, stderr_to=None):
     """Drive one engine process.  Returns dict(events=[...], rc, hang, exit_latency)."""
-    p = subprocess.Popen([exe], stdin=subprocess.PIPE, stdout=subprocess.PIPE, stderr=subprocess.DEVNULL, bufsize=0)
+    errf = open(stderr_to, "wb") if stderr_to else subprocess.DEVNULL
+    p = subprocess.Popen([exe], stdin=subprocess.PIPE, stdout=subprocess.PIPE, stderr=errf, bufsize=0)
     lock = threading.Lock()
     cond = threading.Condition(lock)
     events = []          # ("send", text) | ("eof",) | ("out", kind, raw)
@@ -598,6 +602,8 @@ def run_script(exe, steps, exit_timeout=10.0):
         rc = p.wait()
     lat = time.time() - t_end
     th.join(timeout=5)
+    if stderr_to:
+        errf.close()
     with cond:
         ev = list(events)
     return dict(events=ev, rc=rc, hang=hang, exit_latency=lat, dead_pipe=dead_pipe, uci_lines=len(raw_uci))
@@ -719,8 +725,6 @@ def contract_check(steps, res):
             bad.append("%d isready but %d readyok at exit" % (n_isr, n_rdy))
         if n_uciok != n_uci:
             bad.append("%d uci but %d uciok at exit" % (n_uci, n_uciok))
-    if not crashed and not res["hang"] and res["exit_latency"] > 8.0:
-        bad.append("exit took %.1fs after end of input" % res["exit_latency"])
     seen = set()
     return [b for b in bad if not (b in seen or seen.add(b))], garbled
 
@@ -847,6 +851,8 @@ def run_checks(ctx, exe, ml_exe, proof_broken, info):
     model_opts = out.strip().split("|")
     rc2, out2, err2 = sh([exe], input="uci\nquit\n", timeout=60)
     real_opts = [re.match(r"option name (.*?) type ", l).group(1).lower() for l in out2.split("\n") if l.startswith("option name ")]
+    global UCI_LINES
+    UCI_LINES = {l for l in out2.split("\n") if l.startswith(("id name ", "id author ", "option name "))}
     opts_ok = model_opts == real_opts and sorted(o[0].lower() for o in OPTIONS) == sorted(real_opts)
     ctx.count("declared_options", len(real_opts))
 
@@ -893,11 +899,20 @@ def run_checks(ctx, exe, ml_exe, proof_broken, info):
     with ThreadPoolExecutor(max_workers=NCPU) as ex:
         results = list(ex.map(lambda s: run_script(exe, s[1]), scripts))
     ctx.log("%d scripts run in %.1fs" % (len(scripts), time.time() - t0))
+    # "no exit within 12 s" on a loaded machine is re-examined once with a generous timeout
+    hung = [i for i, r in enumerate(results) if r["hang"]]
+    for i in hung[:8]:
+        r2 = run_script(exe, scripts[i][1], exit_timeout=45.0)
+        ctx.count("hang_rerun")
+        if not r2["hang"]:
+            ctx.count("hang_rerun_recovered")
+            results[i] = r2
     verdicts = check_traces(ml_exe, [trace_line(g, r) for r in results])
     ctx.log("traces checked against the extracted LTS")
 
     rejected, failed, known_crash, garbled_runs = [], [], 0, []
     max_lat = 0.0
+    opts_seen = set()
     for (cls, steps), res, v in zip(scripts, results, verdicts):
         ctx.evaluated()
         ctx.count("class_" + cls)
@@ -916,7 +931,7 @@ def run_checks(ctx, exe, ml_exe, proof_broken, info):
                 ctx.count("delay_sleep")
             elif s[0] == "send" and s[2].get("kind") == "setoption" and s[2].get("option"):
                 ctx.count("setoption_valid" if s[2].get("valid") else "setoption_invalid")
-                ctx.nontrivial("opt:%s:%s" % (s[2]["option"], bool(s[2].get("valid"))))
+                opts_seen.add((s[2]["option"], bool(s[2].get("valid"))))
         # commands sent while a go is outstanding
         n_go = n_bm = during = 0
         for e in res["events"]:
@@ -955,10 +970,44 @@ def run_checks(ctx, exe, ml_exe, proof_broken, info):
                       "(std::cout written by two threads without a lock); %d of %d runs affected" % (len(garbled_runs), len(scripts)),
                       {"class": cls, "script": script_text(steps), "steps": steps_to_json(steps), "malformed_lines": bad_lines,
                        "note": "race: replay may need several attempts"}, key=KEY_GARBLE)
+    ctx.notes["options_exercised"] = {"valid_value": len({o for o, v in opts_seen if v}),
+                                      "invalid_value": len({o for o, v in opts_seen if not v}), "declared": len(OPTIONS)}
     ctx.notes["max_exit_latency_s"] = round(max_lat, 2)
     ctx.notes["model_variant_used"] = "ponderhit_guarded=%s" % g
     ctx.log("rejected traces: %d, contract failures: %d, known-crash scripts: %d, max exit latency %.2fs" %
             (len(rejected), len(failed), known_crash, max_lat))
+
+    # --- thorough tier: a sample of the scripts on an ASan/UBSan build (supports the finder only)
+    if not ctx.quick:
+        try:
+            san = ["-fsanitize=address,undefined", "-fno-omit-frame-pointer"]
+            sexe = cbuild.build_engine(net_kind="material", net_seed=1, extra_flags=san, lib_flags=san)
+            sexe = shutil.copy(sexe, os.path.join(os.path.dirname(exe), "texel-san"))
+            sample = [sc for i, sc in enumerate(scripts) if i % 10 == 0 and sc[0] != "ponderhit-first"]
+            tmpd = os.path.dirname(exe)
+
+            def run_san(isc):
+                i, sc = isc
+                ef = os.path.join(tmpd, "san-%d.err" % i)
+                r = run_script(sexe, sc[1], exit_timeout=60.0, stderr_to=ef)
+                txt = open(ef, "rb").read().decode("latin-1")
+                os.remove(ef)
+                return sc, r, txt
+            with ThreadPoolExecutor(max_workers=max(2, NCPU // 2)) as ex:
+                sres = list(ex.map(run_san, enumerate(sample)))
+            n_rep = 0
+            for sc, r, txt in sres:
+                ctx.count("sanitizer_runs")
+                if "runtime error" in txt or "AddressSanitizer" in txt:
+                    n_rep += 1
+                    if n_rep <= 2:
+                        ctx.violation("sanitizer report while running a UCI script on the ASan/UBSan build",
+                                      {"script": script_text(sc[1]), "steps": steps_to_json(sc[1]), "stderr": txt[-3000:]},
+                                      key="sanitizer:" + (re.findall(r"([\w./]+:\d+):\d+: runtime error", txt) or
+                                                          re.findall(r"ERROR: AddressSanitizer: ([\w-]+)", txt) or ["?"])[0])
+            ctx.log("sanitizer build: %d scripts, %d with reports" % (len(sres), n_rep))
+        except cbuild.BuildError as ex:
+            ctx.notes["sanitizer_build"] = "failed: %s" % str(ex)[:300]
 
     if not opts_ok:
         ctx.violation("declared option list of the model differs from the binary's `uci` output",
@@ -1017,6 +1066,8 @@ def replay(ctx, body):
     tmp = tempfile.mkdtemp(prefix="c05-")
     exe = shutil.copy(cbuild.build_engine(net_kind="material", net_seed=1), os.path.join(tmp, "texel"))
     ml_exe = shutil.copy(coqbuild.extract("ExtractCtl.v", "ctl_driver.ml", "ctl_driver"), os.path.join(tmp, "ctl_driver"))
+    global UCI_LINES
+    UCI_LINES = {l for l in sh([exe], input="uci\nquit\n", timeout=60)[1].split("\n") if l.startswith(("id name ", "id author ", "option name "))}
     res = run_script(exe, steps)
     print("script:")
     for l in script_text(steps):
